@@ -317,3 +317,85 @@ def need(ctx, prop, rule, what, value):
         ctx.missing(prop, rule, what, "%s not found in the analysed crate" % what)
         return False
     return True
+
+
+# ---------------------------------------------------------------- returns / switches
+def ret_assigns(fa):
+    """definitions of the return place: [(bb, pos, term)]"""
+    out = []
+    for d in fa.body.defs.get(0, []):
+        kind, bi, si, place, payload = d
+        if bi not in fa.succ:
+            continue
+        if place["p"]:
+            continue
+        if kind == "assign":
+            out.append((bi, si, fa.origin_rvalue(payload, bi, si)))
+        elif kind == "call":
+            out.append((bi, None, fa.origin_call(bi, payload)))
+    return out
+
+
+def is_agg(term, variant=None, name=None):
+    return isinstance(term, tuple) and term[0] == "agg" and (variant is None or term[2] == variant) and (name is None or term[1] == name)
+
+
+def agg_field(term, f):
+    for k, v in term[3]:
+        if k == f:
+            return v
+    return None
+
+
+def ok_returns(fa):
+    return [(b, s, t) for b, s, t in ret_assigns(fa) if is_agg(t, "Ok", "std::result::Result")]
+
+
+def err_returns(fa):
+    return [(b, s, t) for b, s, t in ret_assigns(fa) if is_agg(t, "Err", "std::result::Result")]
+
+
+def bool_switches(fa, pred):
+    """switches on a bool whose (Not-stripped) discriminant origin satisfies
+    pred; yields (bb, term, true_target, false_target)"""
+    for b in fa.live():
+        t = b.term
+        if t["k"] != "switch" or t.get("discr_ty") != "bool":
+            continue
+        o = fa.origin_operand(t["discr"], b.i, len(b.stmts))
+        neg = False
+        while isinstance(o, tuple) and o[0] == "un" and o[1] == "Not":
+            o = o[2]
+            neg = not neg
+        if not pred(o):
+            continue
+        m = {v: x for v, x in t["targets"]}
+        f = m.get(0)
+        tr = t["otherwise"] if 0 in m else m.get(1)
+        if f is None:
+            f = t["otherwise"]
+        if neg:
+            tr, f = f, tr
+        yield b.i, o, tr, f
+
+
+def region(fa, start, avoiding=()):
+    return fa.reach(start, avoiding=avoiding, include_src=True)
+
+
+def region_has_sites(fa, start, sites_):
+    r = region(fa, start)
+    return [s for s in sites_ if s in r]
+
+
+def edge_returns_without(fa, target, effect_blocks):
+    """every block reachable from `target` avoids effect_blocks and the region
+    reaches a Return"""
+    r = region(fa, target)
+    hit = [e for e in effect_blocks if e in r]
+    return (not hit) and any(x in r for x in fa.returns), hit
+
+
+def ret_values_in_region(fa, target):
+    r = region(fa, target)
+    return [(b, s, t) for b, s, t in ret_assigns(fa) if b in r]
